@@ -156,6 +156,18 @@ var catalogue = []Mutant{
 	{ID: "colon-test-removed", Rules: []string{"R09.3"}, Note: "object scanner no longer requires ':' after the key", Edits: []Edit{{"internal/json/parser.go", "\t\tif b[n] != ':' {\n\t\t\treturn 0\n\t\t} else {\n\t\t\tn += 1\n\t\t\tp.ib++\n\t\t}\n", "\t\tn += 1\n\t\tp.ib++\n"}}},
 	{ID: "clone-drops-params", Rules: []string{"R02.2"}, Note: "clone never formats the parameters into the type string", Edits: []Edit{{"mime.go", "\t\tclonedMIME = mime.FormatMediaType(m.mime, ps)\n", "\t\t_ = ps\n"}}},
 	{ID: "xml-no-fallback", Rules: []string{"R12.10"}, Note: "FromXML returns the empty answer instead of falling back", Edits: []Edit{{"internal/charset/charset.go", "if cset := fromXML(content); cset != \"\" {", "if cset := fromXML(content); true {"}}},
+	{ID: "extend-late-field", Rules: []string{"R14.1"}, Note: "a field of the new node is written after its publication", Edits: []Edit{{"mime.go", "\t\tparent:    m,\n\t\taliases:   aliases,\n\t}\n\n\tmu.Lock()\n\tm.children = append([]*MIME{c}, m.children...)\n\tmu.Unlock()\n", "\t\tparent:    m,\n\t}\n\n\tmu.Lock()\n\tm.children = append([]*MIME{c}, m.children...)\n\tmu.Unlock()\n\tc.aliases = aliases\n"}}},
+	{ID: "put-before-wrapped-use", Rules: []string{"R04.3"}, Note: "pooled reader released before the csv reader built on it is used", Edits: []Edit{{"internal/magic/text_csv.go", "\tdefer readerPool.Put(br)\n", "\treaderPool.Put(br)\n"}}},
+	{ID: "bom-extra-guard", Rules: []string{"R07.3"}, Note: "an input that is exactly a mark is passed over", Edits: []Edit{{"internal/charset/charset.go", "if bytes.HasPrefix(content, b.bom) {", "if len(content) > len(b.bom) && bytes.HasPrefix(content, b.bom) {"}}},
+	{ID: "cap-too-small", Rules: []string{"R16.2"}, Note: "recursion cap below the supported depth", Edits: []Edit{{"internal/json/parser.go", "maxRecursion = 4096", "maxRecursion = 1024"}}},
+	{ID: "cap-never-reached", Rules: []string{"R16.2"}, Note: "recursion cap of 2^28", Edits: []Edit{{"internal/json/parser.go", "maxRecursion = 4096", "maxRecursion = 4096 << 16"}}},
+	{ID: "csv-before-json", Rules: []string{"R10.3"}, Note: "CSV consulted before JSON", Edits: []Edit{{"tree.go", "python, json, ndJSON, rtf, srt, tcl, csv, tsv,", "python, csv, json, ndJSON, rtf, srt, tcl, tsv,"}}},
+	{ID: "cut-continues", Rules: []string{"R11.5"}, Note: "search goes on after the cut", Edits: []Edit{{"internal/charset/charset.go", "\t\t\t\tcontent = content[:i]\n\t\t\t}\n\t\t\tbreak\n", "\t\t\t\tcontent = content[:i]\n\t\t\t\tcontinue\n\t\t\t}\n\t\t\tbreak\n"}}},
+	{ID: "xml-no-trim", Rules: []string{"R12.11"}, Note: "XML decoder sees the leading whitespace", Edits: []Edit{{"internal/charset/charset.go", "\tcontent = trimLWS(content)\n\tdec := xml.NewDecoder", "\tdec := xml.NewDecoder"}}},
+	{ID: "bare-label-no-semicolon", Rules: []string{"R12.11"}, Note: "bare label not ended by ;", Edits: []Edit{{"internal/charset/charset.go", "strings.IndexAny(s, \"; \\t\\n\\f\\r\")", "strings.IndexAny(s, \" \\t\\n\\f\\r\")"}}},
+	{ID: "alias-tail", Rules: []string{"R15.2"}, Note: "first alias not registered", Edits: []Edit{{"mime.go", "\tm.aliases = aliases\n\treturn m", "\tm.aliases = aliases[1:]\n\treturn m"}}},
+	{ID: "tar-trimleft", Rules: []string{"R18.1"}, Note: "checksum padding stripped in front only", Edits: []Edit{{"internal/magic/archive.go", "b = bytes.Trim(b, \" \\x00\")", "b = bytes.TrimLeft(b, \" \\x00\")"}}},
+	{ID: "two-limit-variables", Rules: []string{"R04.1"}, Note: "SetLimit stores into another variable", Edits: []Edit{{"mimetype.go", "atomic.StoreUint32(&readLimit, limit)", "atomic.StoreUint32(&defaultLimit, limit)"}}},
 	{ID: "setlimit-noop", Rules: []string{"R04.1"}, Note: "SetLimit stores nothing", Edits: []Edit{{"mimetype.go", "\tatomic.StoreUint32(&readLimit, limit)\n", "\t_ = limit\n"}}},
 }
 
